@@ -216,8 +216,11 @@ def r23_table_rw(ctx):
     is_year_list = None
     for n in walk_no_nested(cf.node):
         if isinstance(n, ast.For) and isinstance(n.iter, ast.List) and any(
-                isinstance(x, ast.Assign) and U(x.targets[0]) ==
-                "is_year_present" for x in ast.walk(n)):
+                isinstance(x, ast.Assign) and isinstance(
+                    x.targets[0], ast.Name) and U(x.value) == "True" and any(
+                        isinstance(g, ast.If) and U(g.test) ==
+                        x.targets[0].id for g in walk_no_nested(cf.node))
+                for x in ast.walk(n)):
             try:
                 is_year_list = set(ctx.folder.fold(n.iter, cf.module, None,
                                                    {}))
@@ -589,7 +592,12 @@ def _check_search_orders(ctx):
     order = None
     for n in walk_no_nested(f.node):
         if isinstance(n, ast.Assign) and isinstance(n.value, ast.List) and \
-                U(n.targets[0]) == "type_keys":
+                isinstance(n.targets[0], ast.Name) and all(
+                    isinstance(e, ast.Constant) and e.value in (
+                        "complete", "truncated", "reduced")
+                    for e in n.value.elts) and any(
+                        isinstance(l, ast.For) and U(l.iter) ==
+                        n.targets[0].id for l in walk_no_nested(f.node)):
             order = [e.value for e in n.value.elts
                      if isinstance(e, ast.Constant)]
     if order != ["complete", "truncated", "reduced"]:
@@ -677,6 +685,17 @@ def r25_arg_flow(ctx):
     rule = "R25.restriction-flow"
     f = ctx.func("parsers.TimePointParser.get_info")
     rep.need_anchor(rule, "sibling matcher calls")
+    # the restriction variables: locals assigned lists of format / type keys
+    var_of = {}
+    for n in walk_no_nested(f.node):
+        if isinstance(n, ast.Assign) and isinstance(n.targets[0], ast.Name) \
+                and isinstance(n.value, ast.List) and n.value.elts and all(
+                    isinstance(e, ast.Constant) for e in n.value.elts):
+            vals = {e.value for e in n.value.elts}
+            if vals <= {"basic", "extended"}:
+                var_of["bad_formats"] = n.targets[0].id
+            elif vals <= {"truncated", "reduced", "complete"}:
+                var_of["bad_types"] = n.targets[0].id
     for n in walk_no_nested(f.node):
         if isinstance(n, ast.Call) and isinstance(n.func, ast.Attribute) \
                 and n.func.attr in ("get_time_info", "get_time_zone_info"):
@@ -684,7 +703,8 @@ def r25_arg_flow(ctx):
             kw = {k.arg: U(k.value) for k in n.keywords}
             need = ["bad_formats"] + (["bad_types"] if n.func.attr ==
                                       "get_time_info" else [])
-            missing = [k for k in need if kw.get(k) != k]
+            missing = [k for k in need if k not in var_of or
+                       kw.get(k) != var_of[k]]
             rep.check(not missing, rule, ctx.fkey(f, n, "restrictions"),
                       f.loc(n), "%s receives %s" % (n.func.attr, need),
                       "this %s call does not pass %s: a basic date could be "
@@ -694,16 +714,21 @@ def r25_arg_flow(ctx):
     # bad_formats is derived from the date's format key and emptied only for
     # truncated dates
     sets = [n for n in walk_no_nested(f.node) if isinstance(n, ast.Assign)
-            and U(n.targets[0]) == "bad_formats"]
+            and U(n.targets[0]) == var_of.get("bad_formats")]
     vals = {}
     for n in sets:
         p = parent(n)
-        cond = U(p.test) if isinstance(p, ast.If) and any(
-            n is b for b in p.body) else None
+        cond = None
+        if isinstance(p, ast.If) and any(n is b for b in p.body) and \
+                isinstance(p.test, ast.Compare) and isinstance(
+                    p.test.comparators[0], ast.Constant):
+            cond = p.test.comparators[0].value
+        elif isinstance(p, ast.If) and any(n is b for b in p.body):
+            cond = U(p.test)
         vals[cond] = U(n.value)
-    good = vals.get("format_key == 'basic'") == "['extended']" and \
-        vals.get("format_key == 'extended'") == "['basic']" and all(
-            v != "[]" or c in (None, "type_key == 'truncated'")
+    good = vals.get("basic") == "['extended']" and \
+        vals.get("extended") == "['basic']" and all(
+            v != "[]" or c in (None, "truncated")
             for c, v in vals.items())
     rep.check(good, rule, ctx.fkey(f, None, "bad-formats"), f.loc(),
               "a basic date excludes extended times/zones and vice versa; "
